@@ -17,6 +17,9 @@ type End struct {
 	Races     []RaceInfo
 	Steps     int
 	MainStuck bool // thread 0 (the scenario body) did not return
+	// ThreadEnd[id] is the logical time (vs.Now) at which thread id returned,
+	// 0 if it never did.
+	ThreadEnd []int
 }
 
 // LibSites is the sorted set of library functions in which unfinished threads
@@ -286,6 +289,9 @@ func (e *explorer) run2(prefix []int, trace, noSpin bool) (*Exec, *End, string, 
 	}
 	watch.Stop()
 	X = nil
+	for _, t := range x.threads {
+		end.ThreadEnd = append(end.ThreadEnd, t.endStep)
+	}
 	end.Panics = x.panics
 	end.Races = x.races
 	tag, detail := check(end)
